@@ -17,6 +17,9 @@ var clientEntryPoints = []string{
 
 func init() {
 	register("C09", func(c *core.Ctx, tier string) {
+		variadicIndexSafety(c, "C09.4b")
+		containerEffects(c, "C09.14")
+		baseTransportEffects(c, "C09.15")
 		serverEffects(c, "C09.13")
 		valueAfterErrCheck(c, "C09.3e", "engine", "transports", "types", "utils", "webtransport")
 		frameTransportEffects(c, "C09.12")
